@@ -11,5 +11,6 @@ INVARIANT InvSliceKeepsFeatureSeq
 INVARIANT InvGetImplDecl
 INVARIANT InvSetGet
 INVARIANT InvRevComp
+INVARIANT InvWriteDom
 INVARIANT InvResult
 CHECK_DEADLOCK FALSE
